@@ -379,7 +379,7 @@ fn cases(rng: &mut Rng, thorough: bool) -> Vec<Req> {
     }
 
     // ---------------------------------------------------------------- random single faults
-    let extra = if thorough { 6000 } else { 600 };
+    let extra = if thorough { 20000 } else { 2000 };
     for _ in 0..extra {
         match rng.below(3) {
             0 => {
@@ -424,7 +424,14 @@ fn main() {
     quiet_panics();
     let mut out = Out::new();
     let mut rng = Rng::from_env(10);
-    let list = cases(&mut rng, is_thorough());
+    let mut list = cases(&mut rng, is_thorough());
+    // the verdict must not depend on how the body is framed: a third of the
+    // body-carrying cases go out chunked (random sizes, extensions, trailers)
+    for rq in list.iter_mut() {
+        if matches!(rq.framing, Framing::Cl) && !rq.payload.is_empty() && rng.chance(1, 3) {
+            rq.framing = gen_framing(&mut rng, rq.payload.len());
+        }
+    }
     let rt = tokio::runtime::Builder::new_multi_thread().worker_threads(4).enable_all().build().unwrap();
     let ctx = SrvCtx::new();
     let server = rt.block_on(async {
@@ -437,8 +444,8 @@ fn main() {
         id += 1;
         out.line(&format!(
             "{} => {}",
-            rq.line_input("bad", id, port),
-            got.line_output(&delta.to_string(), if followup { "1" } else { "0" })
+            rq.line_input("bad", id),
+            got.line_output(port, &delta.to_string(), if followup { "1" } else { "0" })
         ));
     }
     out.flush();
